@@ -100,7 +100,7 @@ type attempt =
   | Differ of string * string * string   (* what, impl, model *)
 
 let canon l = List.sort compare (List.map (fun o -> (o.dst, o.text)) l)
-let max_cands = 64
+let max_cands = 400
 let max_leaves_per_step = 50000
 
 let () =
